@@ -163,16 +163,26 @@ func (s *Sim) Restart() (abci.ResponseInfo, *PanicError) {
 }
 
 func blockHeader(chainID string, h int64, proposer []byte) tmproto.Header {
-	return tmproto.Header{
+	hd := tmproto.Header{
 		Height:          h,
 		Time:            time.Unix(blockTime0+3*h, 0).UTC(),
 		ChainID:         chainID,
 		ProposerAddress: proposer,
 	}
+	if h > 1 {
+		hd.LastBlockId.Hash = pseudoBlockHash(chainID, h-1)
+	}
+	return hd
+}
+
+// pseudoBlockHash: the block hash Tendermint would put into the headers; a pure function of chain and height
+// (the same history gives the same headers to every replica).
+func pseudoBlockHash(chainID string, h int64) []byte {
+	return sha([]byte(fmt.Sprintf("block-hash/%s/%d", chainID, h)))
 }
 
 func (b *Block) beginRequest(chainID string, h int64) abci.RequestBeginBlock {
-	req := abci.RequestBeginBlock{Header: blockHeader(chainID, h, b.Proposer)}
+	req := abci.RequestBeginBlock{Hash: pseudoBlockHash(chainID, h), Header: blockHeader(chainID, h, b.Proposer)}
 	for _, v := range b.Votes {
 		req.LastCommitInfo.Votes = append(req.LastCommitInfo.Votes, abci.VoteInfo{
 			Validator:       abci.Validator{Address: v.Addr, Power: v.Power},
